@@ -355,6 +355,8 @@ class Emitter:
     def gname(s, name):
         while name in s.m.aliases: name = s.m.aliases[name]
         n = s.cid(name)
+        if n == 'sqrt': return 'vt_sqrt'
+        if n == 'bcmp': return 'memcmp'
         if name in s.m.funcs and re.match(r'llvm_', n): return n
         if n in ('main',): return n
         return n
@@ -699,7 +701,7 @@ class Emitter:
 
 
 BUILTIN_SKIP = {'memcpy', 'memmove', 'memset', 'malloc', 'free', 'sqrt', 'fabs', 'floor', 'ceil', 'fmod', 'abs',
-                'strlen', 'memcmp', '__CPROVER_assume', '__CPROVER_assert', 'vt_cover', 'abort', 'cos', 'sin', 'acos', 'atan2',
+                'strlen', 'memcmp', 'bcmp', '__CPROVER_assume', '__CPROVER_assert', 'vt_cover', 'abort', 'cos', 'sin', 'acos', 'atan2',
                 'pow', 'exp', 'log', 'tan', 'asin', 'atan', 'fmin', 'fmax', 'round', 'trunc', '__gxx_personality_v0', 'strcmp', 'nanosleep', '__errno_location'}
 
 PRELUDE = r'''
@@ -720,17 +722,20 @@ void vt_native_assume(int); void vt_native_assert(int, const char *); void vt_na
 #if defined(__CPROVER__)
 uint64_t __CPROVER_uninterpreted_vt_fmul(uint64_t, uint64_t); uint64_t __CPROVER_uninterpreted_vt_fdiv(uint64_t, uint64_t);
 uint64_t __CPROVER_uninterpreted_vt_fadd(uint64_t, uint64_t); uint64_t __CPROVER_uninterpreted_vt_fsub(uint64_t, uint64_t);
-#define VT_UF(name, cop) static inline double vt_uf_##name(double a, double b) { union { double d; uint64_t u; } x, y, r; x.d = a; y.d = b; r.u = __CPROVER_uninterpreted_vt_##name(x.u, y.u); return r.d; }
+#define VT_UF(name, cop, comm) static inline double vt_uf_##name(double a, double b) { union { double d; uint64_t u; } x, y, r; x.d = a; y.d = b; \
+    if (comm && y.u < x.u) { uint64_t t = x.u; x.u = y.u; y.u = t; } /* commutative operations: operand order is canonicalised */ \
+    r.u = __CPROVER_uninterpreted_vt_##name(x.u, y.u); return r.d; }
 #else
-#define VT_UF(name, cop) static inline double vt_uf_##name(double a, double b) { return a cop b; }
+#define VT_UF(name, cop, comm) static inline double vt_uf_##name(double a, double b) { return a cop b; }
 #endif
-VT_UF(fmul, *) VT_UF(fdiv, /) VT_UF(fadd, +) VT_UF(fsub, -)
+VT_UF(fmul, *, 1) VT_UF(fdiv, /, 0) VT_UF(fadd, +, 1) VT_UF(fsub, -, 0)
 #if defined(VT_NEW_CAP) && defined(__CPROVER__)
 static inline void vt_new_cap_check(uint64_t n) { if (n > VT_NEW_CAP) { __CPROVER_assert(0, "bounded std model capacity exceeded (allocation above VT_NEW_CAP)"); __CPROVER_assume(0); } }
 #define VT_NEW_ARRAY(T, nbytes) (vt_new_cap_check(nbytes), (uint8_t*)malloc(sizeof(T) * (VT_NEW_CAP / sizeof(T))))
 #else
 #define VT_NEW_ARRAY(T, nbytes) ((uint8_t*)malloc(sizeof(T) * ((nbytes) / sizeof(T))))
 #endif
+double vt_sqrt(double);
 static inline uint64_t ir2c_umax(uint64_t a, uint64_t b) { return a > b ? a : b; }
 static inline uint64_t ir2c_umin(uint64_t a, uint64_t b) { return a < b ? a : b; }
 static inline int64_t ir2c_smax(int64_t a, int64_t b) { return a > b ? a : b; }
@@ -1231,6 +1236,8 @@ class FuncTrans:
             if base == 'memset': L.append('  memset(%s, (int)%s, %s);' % (argv[0], argv[1], argv[2]))
             else: L.append('  %s(%s, %s, %s);' % (base, argv[0], argv[1], argv[2]))
             return True
+        if base == 'sqrt' and repr(em.resolve(rty)) == 'double':
+            s.setl(dest, rty, 'vt_sqrt(%s)' % argv[0]); return True
         if base in ('fabs', 'sqrt', 'floor', 'ceil', 'trunc', 'round', 'cos', 'sin', 'exp', 'log', 'pow', 'rint', 'nearbyint'):
             s.setl(dest, rty, '%s(%s)' % (base, ', '.join(argv))); return True
         if base == 'fmuladd': s.setl(dest, rty, '((%s * %s) + %s)' % tuple(argv)); return True
